@@ -130,6 +130,13 @@ impl RefStore {
         self.active = Some(BlobM::new(id));
     }
 
+    /// side effect of a write / delete that failed afterwards: the active blob exists
+    pub fn ensure_active(&mut self) {
+        if self.active.is_none() {
+            self.create_active();
+        }
+    }
+
     pub fn blobs(&self) -> impl Iterator<Item = &BlobM> {
         self.closed.iter().flatten().chain(self.active.iter())
     }
